@@ -197,6 +197,29 @@ def tree_is_fresh(E, y):
         and len({a.uid for a in cols}) == len(cols)
 
 
+def object_unchanged(a, b):
+    """the fields of a transform object (matrix, centre, parameters) are what they were at the entry"""
+    if set(a.fields) != set(b.fields):
+        return False
+    out = []
+    for k, y in b.fields.items():
+        x = a.fields[k]
+        if isinstance(y, NArr):
+            if not isinstance(x, NArr) or x.shape != y.shape:
+                return False
+            out.extend(to_z3(p, y.kind) == to_z3(q, y.kind) for p, q in zip(x.items, y.items))
+        elif isinstance(y, Sym) or isinstance(x, Sym):
+            if not (isinstance(x, Sym) or isinstance(x, (int, float))) or not (isinstance(y, Sym) or isinstance(y, (int, float))):
+                return False
+            out.append(to_z3(x) == to_z3(y))
+        elif isinstance(y, (Obj, PList, SArr)):
+            if getattr(x, "uid", None) != y.uid:
+                return False
+        elif x is not y and x != y:
+            return False
+    return z3.And(*out) if out else True
+
+
 def step_clauses(inputs=("x",), witness=None, root=None, may_return_input=False, admissible=None, result=None):
     """the step clauses for a carrier whose tree parameters are `inputs` (the first one is THE input of the pipeline step).
     witness(E, v, o, ds) -> callable: depth witness of the result, given the witnesses `ds` of the inputs (default: the first input's own,
@@ -250,6 +273,8 @@ def step_clauses(inputs=("x",), witness=None, root=None, may_return_input=False,
 
     def untouched(E, v, o):
         out = [tree_unchanged(live(E, v, nm), o[nm]) for nm in inputs]
+        if isinstance(o.get("self"), Obj) and isinstance(v.get("self"), Obj):
+            out.append(object_unchanged(v["self"], o["self"]))  # the transform object is older than the call as well
         if any(x is False for x in out):
             return False
         out = [x for x in out if x is not True]
